@@ -19,6 +19,7 @@ package scalarDistribution
 /* -------------------------------------------------------------------------- */
 
 import   "fmt"
+import   "math"
 
 import . "github.com/pbenner/autodiff"
 import . "github.com/pbenner/autodiff/statistics"
@@ -96,12 +97,16 @@ func (dist *LaplaceDistribution) LogCdf(r Scalar, x Vector) error {
   r.Abs(r)
   r.Div(r, dist.Sigma)
   r.Neg(r)
-  r.Exp(r)
-  r.Div(r, dist.c2)
 
   if x.At(0).Greater(dist.Mu) {
+    // log(1 - exp(-|x-mu|/sigma)/2)
+    r.Exp(r)
+    r.Div(r, dist.c2)
     r.Neg(r)
-    r.Add(r, dist.c1)
+    r.Log1p(r)
+  } else {
+    // -|x-mu|/sigma - log(2)
+    r.Sub(r, ConstFloat64(math.Ln2))
   }
   return nil
 }
